@@ -308,10 +308,11 @@ def judge_records(R: Run, W, ops: list, res: dict, fresh: Dict[str, set], hist_i
             R.oracle(ok, key, {**case_base, "a": rec["a"], "b": rec["b"]},
                      f"CRS({rec['a']}) == CRS({rec['b']}) is {rec['r']} (reverse {rec['r_rev']}), pyproj says "
                      f"{'same' if want else 'different'} system; lazily filled _epsg: {rec['lazy']}")
-            if rec["r"]:
-                # K1 is: the SAME system (pyproj) spelled differently
-                hk = "crs-eq-hash-same-spelling" if rec["str_same"] else (
-                    K1 if rec["sa"] == rec["sb"] else "crs-eq-hash-different-systems")
+            if rec["r"] and rec["sa"] == rec["sb"]:
+                # eq => hash, judged where the equality itself is right (a wrong `==` between different systems is
+                # reported above, under K4 or crs-eq-wrong, and not a second time here); K1 is: the SAME system
+                # spelled differently
+                hk = "crs-eq-hash-same-spelling" if rec["str_same"] else K1
                 R.oracle(rec["hash_same"], hk, {**case_base, "a": rec["a"], "b": rec["b"]},
                          f"CRS({rec['a']}) == CRS({rec['b']}) but their hashes differ")
         elif k == "final":
@@ -1043,15 +1044,42 @@ def read_only_use(o, rng) -> List[str]:
 
     done: List[str] = []
 
+    import signal
+    import threading
+
+    can_alarm = threading.current_thread() is threading.main_thread()
+
+    class UseTimeout(BaseException):   # not an Exception: library code must not swallow it
+        pass
+
+    def on_alarm(*_):
+        raise UseTimeout()
+
     def attempt(label, fn):
+        try:
+            attempt_(label, fn)
+        except UseTimeout:   # fired between the end of the call and the disarming
+            if can_alarm:
+                signal.setitimer(signal.ITIMER_REAL, 0)
+
+    def attempt_(label, fn):
+        # some calls do not terminate in reasonable time (GridSpec.geojson() walks every tile of the CRS' valid
+        # region, densifying a 1e308 long edge never ends): bound each one
+        if can_alarm:
+            old = signal.signal(signal.SIGALRM, on_alarm)
+            signal.setitimer(signal.ITIMER_REAL, 0.25, 0.05)   # keeps firing until the call is left
         try:
             r = fn()
             if inspect.isgenerator(r) or isinstance(r, (map, zip, filter)):
                 for _, _x in zip(range(50), r):
                     pass
             done.append(label)
-        except Exception:  # pylint: disable=broad-except
+        except (Exception, UseTimeout):  # pylint: disable=broad-except
             pass
+        finally:
+            if can_alarm:
+                signal.setitimer(signal.ITIMER_REAL, 0)
+                signal.signal(signal.SIGALRM, old)
 
     t = type(o)
     names = sorted(n for n in dir(t) if not n.startswith("_"))
